@@ -218,7 +218,7 @@ def run(rep):
     okt = len(tail) == 1 and show(tail[0]["then"]) == "<T, A>::push(expressions, Expression::Negate(<T>::new(expression)))" and show(tail[0]["else"]) == "<T, A>::push(expressions, expression)"
     rep.check(okt, "K-MOD", "K-MOD/not-negates-entry", tail[0]["sp"] if tail else pm.sp, "not(k): the whole entry is negated; otherwise it is used as is", show(tail[0])[:140] if tail else "-")
     # keys with spaces are re-joined
-    rep.check("<impl [T]>::join(Deref::deref(identifier),  )" in show(pm.body) or "join(Deref::deref(identifier)," in show(pm.body), "K-MOD", "K-MOD/keys-with-spaces", pm.sp, "identifier tokens split at spaces are joined back with a space", "")
+    rep.check("<impl [T]>::join(Deref::deref(identifier), \" \")" in show(pm.body), "K-MOD", "K-MOD/keys-with-spaces", pm.sp, "identifier tokens split at spaces are joined back with a space", "")
 
     # ---------------------------------------------------------------- T-CONJ
     uses = []
@@ -233,7 +233,7 @@ def run(rep):
     sfin = show(fin) if fin else ""
     rep.check(sfin == "Result::Ok(Expression::BooleanGroup(BoolSym::And, expressions))", "T-CONJ", "T-CONJ/mapping-is-and", pm.sp, "a mapping with several entries is the and-group of them", sfin)
     s = show(pm.body)
-    rep.check("if (<T, A>::len(expressions) Eq 1) {return Result::Ok(<T>::expect(Iterator::next(IntoIterator::into_iter(expressions)), missing expression))}" in s, "T-CONJ", "T-CONJ/single-entry", pm.sp, "a one-entry mapping is that entry", "")
+    rep.check("if (<T, A>::len(expressions) Eq 1) {return Result::Ok(<T>::expect(Iterator::next(IntoIterator::into_iter(expressions)), \"..\"))}" in s, "T-CONJ", "T-CONJ/single-entry", pm.sp, "a one-entry mapping is that entry", "")
     pi = F.fn("parser::parse_identifier")
     if pi is None:
         rep.lost("T-CONJ", "T-CONJ/parse_identifier", "parser::parse_identifier")
@@ -267,7 +267,7 @@ def run(rep):
                 rep.check(ok, "MISSING", key, n["sp"], "absent field => Missing (or a Missing row in a matrix)", b[:80])
     rep.check(nf >= 20, "MISSING", "MISSING/sites", "src/solver.rs", "at least twenty lookup sites", str(nf))
     core.import_rules(rep, "c06", {"TRI-AND", "TRI-OR", "TRI-NOT", "TRI-ALL", "TRI-OF", "TRI-VERDICT"})
-    core.import_rules(rep, "c07", {"T-PATTERN", "T-SEARCH", "FLAG", "PLAIN-CASE"})
+    core.import_rules(rep, "c07", {"T-PATTERN", "T-SEARCH", "FLAG", "PLAIN-CASE", "AHO-OVERLAP", "T-OFFSET", "LOCKSTEP"})
     rep.floor("T-LOWER", 40)
     rep.floor("OPERAND", 30)
     rep.floor("T-YAML", 14)
